@@ -9,7 +9,7 @@
 From WM Require Import Base.Prelude Message.Model Handler.RouterHandle
   ReqReply.Listen ReqReply.Processed ReqReply.ListenProofs ReqReply.ProcessedProofs ReqReply.Compose
   ReqReply.Caller ReqReply.CallerProofs ReqReply.Marshaler ReqReply.MarshalerProofs
-  ReqReply.Concurrent ReqReply.ConcurrentProofs.
+  ReqReply.Concurrent ReqReply.ConcurrentProofs ReqReply.Api ReqReply.ApiProofs Corr.C18 ReqReply.CorrProofs.
 
 (** every reply a caller receives is the final timeout reply or was built from a notification
     carrying the caller's own operation id - for every stream, caller behaviour and schedule *)
@@ -310,6 +310,67 @@ Proof. exact no_reply_only_if_not_reachable. Qed.
 Print Assumptions C18_error_value_irrelevant.
 Print Assumptions C18_reply_for_every_handler_outcome.
 Print Assumptions C18_no_reply_only_if_not_reachable.
+(** ** every verdict function applied to implementation observations accepts its model *)
+Theorem C18_listen_verdict_model_accepted : forall c tab stream ls done,
+  fixed c = true ->
+  let dec := unm_json (tab_lookup tab) in
+  let s := lrun dec c (linit stream) ls in
+  quiescent dec c s = true ->
+  c18_listen_verdict (LC c tab stream ls (obs_of s) done) = 0.
+Proof. exact listen_verdict_model_accepted. Qed.
+
+Theorem C18_listen_verdict_safety_model_accepted : forall c tab stream ls done,
+  let dec := unm_json (tab_lookup tab) in
+  Nat.odd (c18_listen_verdict (LC c tab stream ls (obs_of (lrun dec c (linit stream) ls)) done)) = false.
+Proof. exact listen_verdict_safety_model_accepted. Qed.
+
+Theorem C18_proc_verdict_model_accepted : forall c i tab,
+  c18_proc_violates (PC c i tab (fst (process (tab_lookup tab) c i)) (snd (process (tab_lookup tab) c i))) = false.
+Proof. exact proc_verdict_model_accepted. Qed.
+
+Theorem C18_onproc_verdict_model_accepted : forall c i tab,
+  c18_onproc_violates (OPC c i tab (fst (on_processed (tab_lookup tab) c i)) (snd (on_processed (tab_lookup tab) c i))) = false.
+Proof. exact onproc_verdict_model_accepted. Qed.
+
+(** API glue (ReqReply/Api.v): NewPubSubBackend validation and the exits of SendWithReplies *)
+Theorem C18_api_verdict_model_accepted :
+  (forall v, c18_api_violates (AV v (validate_model v)) = false)
+  /\ (forall h i, c18_api_violates (AL h i (api_model h i)) = false).
+Proof. exact api_verdict_model_accepted. Qed.
+
+Theorem C18_validate_iff : forall v,
+  validate_model v = true <->
+  v_publisher v = true /\ v_subctor v = true /\ v_pubtopic v = true /\ v_subtopic v = true /\ v_marshaler v = true.
+Proof. exact validate_model_iff. Qed.
+
+(** the send-error row of the API model is what the composed caller + listener model does *)
+Theorem C18_api_send_error_row_from_model : forall dec c a stream cls,
+  fixed c = true ->
+  let s := crun dec c a (cinit stream) cls in
+  kp s = KReturned OSendErr ->
+  quiescent dec c (lsys s) = true ->
+  api_obs_of s = api_model (has_hook c) (LI true true true false).
+Proof. exact api_send_error_row_from_model. Qed.
+
+Print Assumptions C18_listen_verdict_model_accepted.
+Print Assumptions C18_listen_verdict_safety_model_accepted.
+Print Assumptions C18_proc_verdict_model_accepted.
+Print Assumptions C18_onproc_verdict_model_accepted.
+Print Assumptions C18_api_verdict_model_accepted.
+Print Assumptions C18_validate_iff.
+Print Assumptions C18_api_send_error_row_from_model.
+(** the stream assumption made explicit (the only place the Pub/Sub enters): if a listener is handed
+    only notifications the handler side published for some delivery, every non-final reply a caller
+    reads is the result and error text of a delivery of its OWN command *)
+Theorem C18_replies_are_own_deliveries : forall dec enc c deliveries stream ls r,
+  (forall x p, enc x = Some p -> dec p = Some x) ->
+  stream_from_deliveries enc deliveries stream ->
+  In r (got (lrun (unm_json dec) c (linit stream) ls)) ->
+  is_final r = true \/
+  exists pc i, In (pc, i) deliveries /\ p_op i = opid c /\ r = ROwn (p_res i) (p_err i) (p_nid i).
+Proof. exact replies_are_own_deliveries. Qed.
+Print Assumptions C18_replies_are_own_deliveries.
+
 Print Assumptions C18_only_own_replies.
 Print Assumptions C18_replies_do_not_cross.
 Print Assumptions C18_listener_safe.
